@@ -36,9 +36,12 @@ PROPS = {
         K('lemma_score_gt_neg1', 'C11.kani.lemma.scores_are_finite_and_above_the_start_score', kind='lemma'),
     ]),
     'C05': dict(units=['core_all', 'events', 'route'], level='proof'),
-    'C09': dict(units=['core_all', 'events', 'route'], level='proof'),
+    'C09': dict(units=['core_all', 'events', 'route', 'reg'], level='proof'),
     'C10': dict(units=['core_all', 'events', 'route'], level='proof'),
-    'C06': dict(units=['core_all'], level='proof'),
+    'C06': dict(units=['core_all'], level='proof', kani=[
+        K('window_recovery_contract', 'C06.kani.time_based_recovery_in_range_never_decreases_at_most_120_fast_recovery_left_at_12000',
+          note='alloc::fmt::format stubbed (debug-only string on the growth path)'),
+    ]),
     'C08': dict(units=['core_all'], level='proof'),
     'C12': dict(units=['core_all'], level='proof'),
     'C13': dict(units=['core_all', 'events'], level='proof', kani=[
@@ -47,6 +50,7 @@ PROPS = {
     'C14': dict(units=['core_all', 'events'], level='proof', kani=[
         K('keepalive_ext_roundtrip', 'C14.kani.extended_keepalive_is_38_bytes_standard_prefix_and_decodes_back'),
         K('smooth_rtt_never_negative_or_nan', 'C14.kani.smoothed_rtt_never_negative'),
+        K('keepalive_packet_telemetry', 'C14.kani.keepalive_of_the_real_link_carries_timestamp_and_current_telemetry'),
     ]),
     'C07': dict(units=['reg', 'events'], level='proof',
                 kani=[K('reg_packets_layout', 'C07.kani.reg_packets_carry_type_and_id')]),
@@ -57,6 +61,7 @@ PROPS = {
         K('cc_tick_growth_bounded_at_floor_after_bootstrap', 'C16.kani.tick.growth_bounded_at_floor_after_bootstrap'),
     ]),
     'C17': dict(units=['cls'], level='proof'),
+    'C19': dict(units=['reload', 'events'], level='proof'),
     'C15': dict(
         kani=[K('reg_packets_layout', 'C15.kani.reg1_reg2_are_258_bytes_type_plus_id'),
               K('keepalive_roundtrip', 'C15.kani.keepalive_decodes_back', note='8-iteration loop fully unwound (unwind 9, unwinding assertions on)'),
